@@ -859,3 +859,5 @@ func init() {
 	register(&Suite{Name: "concstress", Parallel: 1, Gen: genConcStress, Exec: execConcStress,
 		Rule: "EXPLORATION (supporting only): a separate engine process runs concurrent ingest on 2–3 indexes + periodic flush + forced rotation + repeated match-all / count queries + fan-in rounds (4–8 goroutines released together doing the FIRST ingest on each of 2–3 brand-new indexes, every other round also on an index whose rotated store was removed as stale) for a fixed time under GOMAXPROCS 1, 4, 16 (thorough tier: also a -race build) and checks per query: no event twice, every event flushed before the query began present; at quiescence: every event exactly once, every acknowledged first ingest of a fan-in round searchable; crash, stall and race-detector reports become findings"})
 }
+
+func init() { registerWorker("c11stress", c11StressMain) }
